@@ -319,6 +319,11 @@ func (c *checker) run(sc *seqCase) {
 				break
 			}
 			if f.want.free {
+				if f.want.sound200 && rsp.Status == 200 && r.ep == epProof {
+					if why := w.checkProof(rsp.Body, int(r.a), r.b); why != "" {
+						bad("answers 200 with content taken from the faulty part of a backend reply", f.class, fmt.Sprintf("backend fault %q on %s answered 200: %s", f.name, f.rpc, why))
+					}
+				}
 				break
 			}
 			if rsp.Status == 200 {
